@@ -45,6 +45,10 @@ META = {
                 text="contracts: part proved, part bounded. Proved for every extent, coordinate content and NaN mask of each structure class (1-2 sample dims, 1-2 feature dims, any dims order, sample MultiIndex, NaN checks on/off, lazy): unseen scores carry the new data's own sample coordinates, are never re-indexed to the training coordinates, and the matrix handed to the model uses statistics of the fitted data only and no operation mixing new samples; the model algorithms are right-multiplications of that matrix. Bounded: concatenation = concatenated transforms for split points, subsets of training samples, repeated / overlapping / disjoint / MultiIndex labels on 9 model classes.",
                 note="assumed: xarray structural laws as modelled in vf/sym/ldom.py; DataArray inputs (Dataset/list: bounded); model-level plumbing bounded; bounded: 46 (quick) / 82 (thorough) real models",
                 ref="5/C05"),
+    "C06": dict(level="other", technique="contract-based deductive verification: the real Sanitizer inside the real Preprocessor chain traced on structural proxies with every NaN-mask-dependent decision explored; obligations on the paths; bounded exhaustive small-mask enumeration against fits on pre-deleted data as labelled stand-in",
+                text="contracts: part proved, part bounded. Proved for all extents and masks (1-2 sample dims, standardisation, sample MultiIndex): data with an isolated NaN never passes fit or transform, transform data whose feature mask differs (as seen by the Sanitizer) never passes, the kept block is valid-features x valid-samples of the data itself, dropped labels are re-inserted on every inverse path, check_nans=False drops nothing. Bounded: equality with the model fitted on pre-deleted data (singular values, scores, components, NaN positions of outputs) for every subset of <=2 of 6 features and <=2 of 7 samples, rotated and cross-set models.",
+                note="assumed: xarray notnull/any/sum/isin/where/reindex as modelled, skipna statistics; known findings: cross-set missing samples at different positions with equal counts; complete transform data accepted by a model fitted with missing features when centring is on; bounded: 110 (quick) / ~900 (thorough) masks",
+                ref="5/C06"),
 }
 NA_REASON = "no check registered yet in this snapshot of /verif (build in progress; see DESIGN.md section 5 for the plan)"
 
